@@ -28,7 +28,7 @@ inductive Tok
   | increasing | decreasing | none_ | peak | valley | positive | negative | convex | concave
   | hypercube | simplex | fixed | learned_interior | all_vertices | kronecker_factored
   | linear_initializer | random_monotonic_initializer | rtl_layer | torsion | laplacian
-  | calib_hessian | quantiles | uniform | other
+  | calib_hessian | quantiles | uniform | equal_slopes | other
   deriving DecidableEq, Repr
 
 /-- a Python scalar; `str t exact`: a string whose `.lower()` is the token `t`, `exact` iff the
@@ -503,7 +503,7 @@ def verifyLattice (r : RawLatFull) : Except Err LatCfg := do
     let k := seqLen r.ew
     pure ⟨sizes, mu.1, mu.2, all.take k, all.drop k, md, rd, jm, ju, lo, hi⟩
 
-/-- `LatticeConstraints.__init__` (output bounds are NOT passed to the verification) -/
+/-- `LatticeConstraints.__init__` (since fix 6e08a8c the output bounds are verified too) -/
 structure RawLattice where
   sizes : Val
   mono : Val
@@ -514,9 +514,11 @@ structure RawLattice where
   rd : Val
   jm : Val
   ju : JU
+  omin : Val
+  omax : Val
 def latticeConstraints (r : RawLattice) : Except Err LatCfg :=
   verifyLattice { sizes := r.sizes, mono := r.mono, uni := r.uni, ew := r.ew, tp := r.tp, md := r.md,
-                  rd := r.rd, jm := r.jm, ju := r.ju }
+                  rd := r.rd, jm := r.jm, ju := r.ju, omin := r.omin, omax := r.omax }
 
 /-- `LinearInitializer.__init__` -/
 structure RawLatInit where
@@ -537,8 +539,7 @@ structure RawLatInit2 where
 def randomMonotonicInitializer (r : RawLatInit2) : Except Err LatCfg :=
   verifyLattice { sizes := r.sizes, uni := r.uni, omin := r.omin, omax := r.omax }
 
-/-- lattice `LaplacianRegularizer.__init__` verifies `l1` then `l2`; `TorsionRegularizer.__init__`
-verifies nothing -/
+/-- lattice `LaplacianRegularizer.__init__` / `TorsionRegularizer.__init__` verify `l1` then `l2` -/
 structure RawLatReg where
   sizes : Val
   l1 : Val
@@ -547,7 +548,8 @@ def laplacianRegularizer (r : RawLatReg) : Except Err Unit := do
   let _ ← verifyLattice { sizes := r.sizes, amount := r.l1 }
   let _ ← verifyLattice { sizes := r.sizes, amount := r.l2 }
   pure ()
-def torsionRegularizer (_ : RawLatReg) : Except Err Unit := .ok ()
+/-- since fix 4c13b7a `TorsionRegularizer.__init__` verifies its amounts like the Laplacian one -/
+def torsionRegularizer (r : RawLatReg) : Except Err Unit := laplacianRegularizer r
 
 /-! ## `pwl_calibration_lib.verify_hyperparameters` -/
 
@@ -600,14 +602,26 @@ structure RawPwl where
   missIn : Val
   missOut : Val
   kptype : Val
+  clampMin : Val
+  clampMax : Val
+  init : Val
+/-- `convexity in ("none", 0)` -/
+def convIsNone (v : Val) : Bool :=
+  v == .a (.str .none_) || (match v with | .a x => x.eqNum 0 | _ => false)
+
+/-- `(clamp_min and output_min is not None) or (clamp_max and output_max is not None)` -/
+def clampRequested (r : RawPwl) : Bool :=
+  (r.clampMin.truthy && !r.omin.isNone) || (r.clampMax.truthy && !r.omax.isNone)
 def pwlCalibration (r : RawPwl) : Except Err PwlCfg := do
   let c ← verifyPwl r.kp r.omin r.omax r.mono r.conv r.cyclic r.kptype
   if !r.missIn.isNone && !r.impute.truthy then ve
   else if !r.missOut.isNone && !r.impute.truthy then ve
   else if r.kp.isNone then ve
+  -- fix a22154b: 'equal_slopes' together with is_cyclic, and clamping of a non monotonic calibrator
+  else if r.cyclic.truthy && r.init == .a (.str .equal_slopes) then ve
   else if r.mono.isNone then ve
-  else if !(r.conv == .a (.str .none_) || (match r.conv with | .a x => x.eqNum 0 | _ => false)) &&
-      r.kptype == .a (.str .learned_interior) then ve
+  else if clampRequested r && !c.mono.truthy then ve
+  else if !convIsNone r.conv && r.kptype == .a (.str .learned_interior) then ve
   else pure c
 
 structure RawPwlC where
@@ -668,15 +682,25 @@ def boundMissing (b : Option (List Atom)) (dim : Nat) : Except Err Bool :=
   | Option.none => .ok true
   | some l => if dim < l.length then .ok (l.getD dim .none).isNone else oe
 
-/-- `for dim in [dominant, weak]:` the `input_min` / `input_max` presence checks, in source order -/
-def rdBoundsMissing (imin imax : Option (List Atom)) (d w : Nat) : Except Err Bool := do
-  let m1 ← boundMissing imin d
+/-- `input_min[dim] >= input_max[dim]` (fix 7189cd2); both entries are numbers here -/
+def rangeEmpty (imin imax : Option (List Atom)) (dim : Nat) : Except Err Bool :=
+  match ((imin.getD []).getD dim .none).num, ((imax.getD []).getD dim .none).num with
+  | some a, some b => .ok (decide (a ≥ b))
+  | _, _ => te
+
+/-- the three checks of one dimension of a range dominance, in source order: `input_min` set,
+`input_max` set, `input_min < input_max` -/
+def rdDimBad (imin imax : Option (List Atom)) (dim : Nat) : Except Err Bool := do
+  let m1 ← boundMissing imin dim
   if m1 then pure true else
-  let m2 ← boundMissing imax d
+  let m2 ← boundMissing imax dim
   if m2 then pure true else
-  let m3 ← boundMissing imin w
-  if m3 then pure true else
-  boundMissing imax w
+  rangeEmpty imin imax dim
+
+/-- `for dim in [dominant, weak]:` -/
+def rdBoundsMissing (imin imax : Option (List Atom)) (d w : Nat) : Except Err Bool := do
+  let b1 ← rdDimBad imin imax d
+  if b1 then pure true else rdDimBad imin imax w
 
 def linRdLoop (mono : List Atom) (imin imax : Option (List Atom)) :
     List Item → List (Nat × Nat) → Except Err (List (Nat × Nat))
@@ -728,12 +752,28 @@ def nidBad (nid : Option Nat) (mono : Option (List Atom)) : Bool :=
   | some k => lenNe mono k
   | Option.none => false
 
+/-- `len(monotonicities) if monotonicities is not None else num_input_dims` -/
+def expectedLen (mono : Option (List Atom)) (nid : Option Nat) : Option Nat :=
+  match mono with
+  | some m => some m.length
+  | Option.none => nid
+
+/-- `bounds is not None and expected is not None and len(bounds) != expected` -/
+def boundsLenBad (expected : Option Nat) (b : Option (List Atom)) : Bool :=
+  match expected, b with
+  | some k, some l => l.length != k
+  | _, _ => false
+
 def verifyLinear (nid : Option Nat) (monoV mdV rdV iminV imaxV : Val) : Except Err LinCfg := do
   let mono ← canonMonotonicities true monoV
   let imin ← canonInputBounds iminV
   let imax ← canonInputBounds imaxV
   if nidBad nid mono then ve
   else if boundsCrossed (imin.getD []) (imax.getD []) then ve
+  -- fix b89ac95: dominances need monotonicities; bounds must have one entry per input dimension
+  else if (!mdV.isNone || !rdV.isNone) && mono.isNone then ve
+  else if boundsLenBad (expectedLen mono nid) imin then ve
+  else if boundsLenBad (expectedLen mono nid) imax then ve
   else
   let md ← linMd mono mdV
   let rd ← linRd mono imin imax rdV
@@ -906,7 +946,8 @@ structure Feat where
   buckets : Nat         -- 0: numeric feature
   keypoints : Nat       -- 0 list of numbers, 1 a string ('quantiles'), 2 list with a non-number
   catMono : Nat         -- 0 falsy / 'none', 1 valid pairs, 2 index out of range, 3 non-int index,
-                        -- 4 flat list of ints, 5 another string, 6 an int
+                        -- 4 flat list of ints, 5 another string, 6 an int, 7 a set of pairs (neither
+                        -- list nor tuple: rejected since fix e8dafc0)
   deriving DecidableEq, Repr
 
 structure RawPremade where
@@ -930,7 +971,7 @@ def verifyFeature (f : Feat) : Except Err Unit :=
     if f.keypoints ≠ 0 then ve else .ok ()
   else if f.catMono = 0 then .ok ()
   else if f.catMono = 1 then .ok ()
-  else ve   -- 2,3: bad index; 4: element not iterable; 5: characters are not ints… ; 6: not iterable
+  else ve   -- 2,3: bad index; 4: element not a pair; 5,6,7: not a list or tuple (fix e8dafc0)
 
 def verifyEnsemble (r : RawPremade) (fs : List Feat) : Except Err Unit :=
   if r.lat = 0 then
